@@ -1,6 +1,7 @@
 import Toodee.Spec.History
 import Toodee.Spec.IterAbs
 import Toodee.Proofs.HistoryLemmas
+import Toodee.Proofs.OverCap
 /-
   C01 — Array dimensions always agree with its contents.
 
@@ -182,5 +183,38 @@ example :
     decide
   · decide
   · rfl
+
+/-- **what the refinement's side condition leaves out, stated outright.**  `HOp.fits` removes from `C01_history_refines` the requests
+    the plain model cannot express: more cells than a `Vec<T>` holds (`insert_*`, `push_*`, `new`, `init`, `reserve`) and a sorted
+    line longer than a side table.  Each of them is rejected with a panic and leaves the array as it was — in both modes, for
+    every limit. -/
+theorem C01_over_capacity_rejected (e : HEnv) (t : TD α) (h : t.Inv) (op : HOp α) (hw : op.wf) (ho : op.overCap e t) :
+    hres e t op = .error .panic ∧ hstep e t op = t :=
+  over_capacity_rejected e t h op hw ho
+
+/-- … and there is nothing in between: a well-formed operation that is not a block of calls on a view either meets the side
+    condition of the refinement or is one of those requests -/
+theorem C01_fits_or_over_capacity (e : HEnv) (t : TD α) (op : HOp α) (hw : op.wf)
+    (hv : ∀ s e' ops, op ≠ .viaView s e' ops) : op.fits e t ∨ op.overCap e t := by
+  cases op with
+  | insertRow i it sp => exact Nat.lt_or_ge _ _ |>.symm
+  | insertCol i it sp => exact Nat.lt_or_ge _ _ |>.symm
+  | newArr c r d => exact Nat.lt_or_ge _ _ |>.symm
+  | initArr c r v => exact Nat.lt_or_ge _ _ |>.symm
+  | capacityCall k =>
+    cases k with
+    | none => exact .inl trivial
+    | some k => exact Nat.lt_or_ge _ _ |>.symm
+  | inplace mop =>
+    cases mop with
+    | sortRow side k => exact Nat.lt_or_ge _ _ |>.symm
+    | sortCol side k => exact Nat.lt_or_ge _ _ |>.symm
+    | _ => exact .inl hw.2
+  | viaView s e' ops => exact absurd rfl (hv s e' ops)
+  | _ => exact .inl trivial
+
+/-- non-vacuity: `reserve(usize::MAX)` on a 1x1 array of 4-byte cells, and a sort of a row longer than the side table -/
+example : (HOp.capacityCall (some (WORD - 1)) : HOp Nat).overCap ⟨.release, 2305843009213693951, 100⟩ ⟨[7], 1, 1⟩ := by
+  simp [HOp.overCap, WORD]
 
 end Toodee
